@@ -138,6 +138,25 @@ func (env *SpecEnv) lookup(name string) (Val, bool) {
 			}
 		}
 	}
+	// a live local that is not visible from the anchor's source position (e.g. a loop variable seen from the
+	// function's end anchor on a path that returns from inside the loop)
+	if env.scope != nil {
+		var hit Val
+		n := 0
+		vars := env.vars
+		if vars == nil {
+			vars = st.vars
+		}
+		for o, v := range vars {
+			if o.Name() == name && o.Pkg() == env.pkg.Types {
+				hit = v
+				n++
+			}
+		}
+		if n == 1 {
+			return hit, true
+		}
+	}
 	switch name {
 	case "true":
 		return vBool("true"), true
@@ -197,6 +216,18 @@ func (env *SpecEnv) eval(n *SNode) Val {
 		v := env.eval(n.Args[0])
 		return env.child(map[string]Val{n.Vars[0]: v}).eval(n.Args[1])
 	case "sel":
+		if n.Args[0].Op == "id" {
+			if _, known := env.lookup(n.Args[0].Text); !known && env.pkg != nil {
+				// package-qualified global of an imported package: pkg.Name
+				for _, imp := range env.pkg.Types.Imports() {
+					if imp.Name() == n.Args[0].Text {
+						if o, ok := imp.Scope().Lookup(n.Text).(*types.Var); ok {
+							return st.globalVal(o)
+						}
+					}
+				}
+			}
+		}
 		base := env.eval(n.Args[0])
 		return env.selectField(base, n.Text)
 	case "index":
@@ -316,6 +347,10 @@ func (env *SpecEnv) selectField(base Val, field string) Val {
 		case "arr":
 			return base.Sub[0]
 		case "off":
+			return base.Sub[1]
+		}
+	case KString:
+		if field == "off" {
 			return base.Sub[1]
 		}
 	}
@@ -608,6 +643,9 @@ func (env *SpecEnv) evalCall(n *SNode) Val {
 	case "sameArray":
 		a := env.eval(n.Args[0])
 		b := env.eval(n.Args[1])
+		if a.K != KSlice || b.K != KSlice {
+			return vBool("false") // strings are immutable values: never the same array as a slice
+		}
 		return vBool(sEq(a.arr(), b.arr()))
 	case "disjoint":
 		// the element ranges [0,cap) of two slices do not overlap
@@ -928,10 +966,15 @@ func (env *SpecEnv) applySpec(sf *SpecFunc, args []Val, n *SNode) Val {
 		ps := specSort(sf.Params[i].Type)
 		switch {
 		case sf.Params[i].Type == "bytes":
-			// a byte sequence argument: content array + length (strings) or a snapshot of slice content
-			c, l := env.seqOf(a)
-			terms = append(terms, c, l)
+			// a byte sequence argument: content array (+ length when the body uses len) of a string, or a snapshot of slice content
+			// passed as (content array, offset[, length]): equal sequences give congruent terms without view symbols
+			c, o, l := env.seqParts(a)
+			terms = append(terms, c, o)
 			sorts = append(sorts, "(Array Int Int)", "Int")
+			if specUsesLen(sf, sf.Params[i].Name) {
+				terms = append(terms, l)
+				sorts = append(sorts, "Int")
+			}
 		case ps != "":
 			switch {
 			case a.K == KNil:
@@ -972,28 +1015,69 @@ func (env *SpecEnv) seqOf(a Val) (string, string) {
 		if a.soff() == "0" {
 			return a.content(), a.length()
 		}
-		c := st.fc.fresh("seqview", "(Array Int Int)")
-		st.facts = st.facts.push(fmt.Sprintf("(forall ((g_k Int)) (! (= (select %s g_k) %s) :pattern ((select %s g_k))))", c, a.at("g_k"), c))
-		return c, a.length()
+		return st.fc.seqView(a.content(), a.soff()), a.length()
 	case KSlice:
 		et := sliceElemType(a.T)
 		cs := flatComps(et)
 		if len(cs) != 1 || cs[0].Sort != "Int" {
 			env.fail("sequence view needs scalar elements")
 		}
-		h := st.heapIn(env.heapMap(), elemHeapName(et, cs[0]), elemSort(cs[0]))
+		heap := env.heapMap()
+		if a.Heap != nil {
+			heap = a.Heap
+		}
+		h := st.heapIn(heap, elemHeapName(et, cs[0]), elemSort(cs[0]))
 		row := sSel(h, a.arr())
 		if a.off() == "0" {
 			return row, a.length()
 		}
-		c := st.fc.fresh("seqview", "(Array Int Int)")
-		st.facts = st.facts.push(fmt.Sprintf("(forall ((g_k Int)) (! (= (select %s g_k) (select %s (+ g_k %s))) :pattern ((select %s g_k))))", c, row, a.off(), c))
-		return c, a.length()
+		return st.fc.seqView(row, a.off()), a.length()
 	case KRaw:
 		return a.S, "0"
 	}
 	env.fail("not a sequence")
 	return "", ""
+}
+
+// seqParts gives (content array, offset, length) of a byte sequence value in the current heap view.
+func (env *SpecEnv) seqParts(a Val) (string, string, string) {
+	st := env.st
+	switch a.K {
+	case KString:
+		return a.content(), a.soff(), a.length()
+	case KSlice:
+		et := sliceElemType(a.T)
+		cs := flatComps(et)
+		if len(cs) != 1 || cs[0].Sort != "Int" {
+			env.fail("sequence argument needs scalar elements")
+		}
+		heap := env.heapMap()
+		if a.Heap != nil {
+			heap = a.Heap
+		}
+		h := st.heapIn(heap, elemHeapName(et, cs[0]), elemSort(cs[0]))
+		return sSel(h, a.arr()), a.off(), a.length()
+	case KRaw:
+		return a.S, "0", "0"
+	}
+	env.fail("not a sequence")
+	return "", "", ""
+}
+
+// seqView returns the canonical symbol for the sequence k -> base[off+k]; the same (base, off) always yields the
+// same symbol, so that recursive spec functions applied to it give syntactically equal terms on every path.
+func (fc *FuncCtx) seqView(base, off string) string {
+	key := base + "|" + off
+	if fc.views == nil {
+		fc.views = map[string]string{}
+	}
+	if v, ok := fc.views[key]; ok {
+		return v
+	}
+	v := fc.fresh("seqview", "(Array Int Int)")
+	fc.views[key] = v
+	fc.viewDefs = append(fc.viewDefs, [2]string{v, fmt.Sprintf("(forall ((g_k Int)) (! (= (select %s g_k) (select %s (+ g_k %s))) :pattern ((select %s g_k))))", v, base, off, v)})
+	return v
 }
 
 // ---- helpers used by the executor ----
@@ -1065,4 +1149,34 @@ func (env *SpecEnv) applyScalarSpec(sf *SpecFunc, args []Val) Val {
 		return vBool(t)
 	}
 	return vInt(t, nil)
+}
+
+// specUsesLen: does the body of a spec function mention len(<param>)?
+func specUsesLen(sf *SpecFunc, param string) bool {
+	var walk func(n *SNode) bool
+	walk = func(n *SNode) bool {
+		if n == nil {
+			return false
+		}
+		if n.Op == "call" && (n.Text == "len" || n.Text == "cap") && len(n.Args) == 1 && n.Args[0].Op == "id" && n.Args[0].Text == param {
+			return true
+		}
+		// passing the parameter on to another spec function: be conservative
+		if n.Op == "call" && n.Text != sf.Name {
+			for _, a := range n.Args {
+				if a.Op == "id" && a.Text == param {
+					if n.Text != "len" && n.Text != "cap" {
+						return true
+					}
+				}
+			}
+		}
+		for _, a := range n.Args {
+			if walk(a) {
+				return true
+			}
+		}
+		return false
+	}
+	return walk(sf.Body)
 }
